@@ -129,32 +129,47 @@ def imageDefaults : Dict :=
 /-- Image overrides `clear`: `dict.clear()` then every default key is set again; then `update(data)` -/
 def Image.deser (data : Dict) (o : DictObj) : DictObj := { o with items := dictUpdate imageDefaults data }
 
-/-- identifier setter of Anchor / Guideline (sticky; registers in the parent's registry) -/
-def setIdent (d : Dict) (r : Reg) (v : Val) : Dict × Reg :=
-  if dictGet d "identifier" ≠ pyNone then (d, r)
-  else if v = pyNone then (d, r)
-  else (AL.set d "identifier" v, r.add v)
+/-- identifier setter of Anchor / Guideline: never overwrites an identifier, nothing to do for None;
+`assert value not in identifiers`, store, `identifiers.add(value)` (the parent's registry) -/
+def setIdentItems (d : Dict) (v : Val) : Dict :=
+  if dictGet d "identifier" ≠ pyNone then d
+  else if v = pyNone then d
+  else AL.set d "identifier" v
 
-/-- `Anchor(glyph=self, anchorDict=d)`: x, y, name, color, identifier through the attribute setters -/
-def Anchor.ofDict (d : Dict) (r : Reg) : DictObj × Reg :=
+def setIdentReg (d : Dict) (r : Reg) (v : Val) : Reg :=
+  if dictGet d "identifier" ≠ pyNone then r
+  else if v = pyNone then r
+  else r.add v
+
+/-- x, y, name, color of `Anchor(glyph=self, anchorDict=d)` through the attribute setters -/
+def Anchor.attrsOf (d : Dict) : Dict :=
   let it : Dict := []
   let it := setAttr it "x" (dictGet d "x")
   let it := setAttr it "y" (dictGet d "y")
   let it := setAttr it "name" (dictGet d "name")
-  let it := setAttr it "color" (dictGet d "color")
-  let (it, r) := setIdent it r (dictGet d "identifier")
-  ({ items := it, parent := true, observed := false }, r)
+  setAttr it "color" (dictGet d "color")
 
-/-- `Guideline(font=… | glyph=…, guidelineDict=d)` -/
-def Guideline.ofDict (d : Dict) (r : Reg) : DictObj × Reg :=
+def Anchor.itemsOf (d : Dict) : Dict := setIdentItems (Anchor.attrsOf d) (dictGet d "identifier")
+
+/-- `Anchor(glyph=self, anchorDict=d)`: x, y, name, color, identifier through the attribute setters -/
+def Anchor.ofDict (d : Dict) (r : Reg) : DictObj × Reg :=
+  ({ items := Anchor.itemsOf d, parent := true, observed := false },
+   setIdentReg (Anchor.attrsOf d) r (dictGet d "identifier"))
+
+def Guideline.attrsOf (d : Dict) : Dict :=
   let it : Dict := []
   let it := setAttr it "x" (dictGet d "x")
   let it := setAttr it "y" (dictGet d "y")
   let it := setAttr it "angle" (dictGet d "angle")
   let it := setAttrDel it "name" (dictGet d "name")
-  let it := setAttrDel it "color" (dictGet d "color")
-  let (it, r) := setIdent it r (dictGet d "identifier")
-  ({ items := it, parent := true, observed := false }, r)
+  setAttrDel it "color" (dictGet d "color")
+
+def Guideline.itemsOf (d : Dict) : Dict := setIdentItems (Guideline.attrsOf d) (dictGet d "identifier")
+
+/-- `Guideline(font=… | glyph=…, guidelineDict=d)` -/
+def Guideline.ofDict (d : Dict) (r : Reg) : DictObj × Reg :=
+  ({ items := Guideline.itemsOf d, parent := true, observed := false },
+   setIdentReg (Guideline.attrsOf d) r (dictGet d "identifier"))
 
 /-- `ImageSet/DataSet.setDataFromSerialization`: `_data = {}`, then `self[k] = data[k]` for every key -/
 def FileSet.deser (data : Dict) (o : DictObj) : DictObj :=
@@ -483,11 +498,22 @@ def Layer.setGlyph (ly : Layer) (n : Val) (gd : List (String × GVal)) : Layer :
     glyphs := AL.set ly.glyphs n { g with name := n, observed := ly.disp }
     err := orErr ly.err g.reg.error }
 
+/-- `_set_lib`: create on demand (parent = the layer, observed), clear, update -/
+def Layer.setLib (d : Dict) (ly : Layer) : Layer :=
+  { ly with lib := { items := dictUpdate [] d, parent := true, observed := ly.disp } }
+
+def Layer.setTempLib (d : Dict) (ly : Layer) : Layer :=
+  { ly with tempLib := { items := dictUpdate [] d, parent := true, observed := false } }
+
+/-- `set_glyphs`: every entry of the glyphs dictionary, in its order -/
+def Layer.setGlyphs (l : List (Val × List (String × GVal))) (ly : Layer) : Layer :=
+  l.foldl (fun (ly : Layer) p => ly.setGlyph p.1 p.2) ly
+
 def Layer.setField : String → LVal → Layer → Layer
-  | "lib", .dict d, ly => { ly with lib := { items := dictUpdate [] d, parent := true, observed := ly.disp } }
-  | "tempLib", .dict d, ly => { ly with tempLib := { items := dictUpdate [] d, parent := true, observed := false } }
+  | "lib", .dict d, ly => ly.setLib d
+  | "tempLib", .dict d, ly => ly.setTempLib d
   | "color", .val v, ly => { ly with color := v }
-  | "glyphs", .glyphs l, ly => l.foldl (fun ly p => ly.setGlyph p.1 p.2) ly
+  | "glyphs", .glyphs l, ly => ly.setGlyphs l
   | _, _, ly => ly
 
 def Layer.getField : String → Layer → Option LVal
@@ -586,23 +612,37 @@ def Font.ser (wl bl : Option (List String)) (f : Font) : List (String × FVal) :
 /-- the sub-object getters of Font create the object with its parent and start observing it -/
 def wired (o : DictObj) : DictObj := { o with parent := true, observed := true }
 
+/-- `init_set_data` / `init_set_images`: a new file set (parent = the font, observed by it) filled from the data -/
+def newFileSet (d : Dict) : DictObj := FileSet.deser d { parent := true, observed := true }
+
+/-- `single_update` on a dict-like sub-object: the lazy getter creates it with its parent and starts
+observing it; then clear + update -/
+def updateWired (o : DictObj) (d : Dict) : DictObj := (wired o).deser d
+
+/-- `init_set_layers`: end the old observations, a new layer set of this font, observe it, fill it -/
+def newLayerSet (d : List (String × List LayerEntry)) : LayerSet :=
+  LayerSet.deser d { parent := true, observed := true, disp := true }
+
+/-- `set_guidelines` (after the fix): clearGuidelines(), `instantiateGuideline(guidelineDict=d)` for each,
+then `self.guidelines = guides` -/
+def Font.setGuidelines (l : List Dict) (f : Font) : Font :=
+  let r := f.guidelines.reverse.foldl (fun r a => r.remove (dictIdent a)) f.reg
+  let built := buildDicts Guideline.ofDict l r
+  { f with reg := built.2, guidelines := built.1.map (fun c => { c with observed := true }) }
+
 def Font.setField : String → FVal → Font → Font
   | "_ufoFormatVersion", .val v, f => { f with fmt := v }
   | "_kerningGroupConversionRenameMaps", .val v, f => { f with maps := v }
-  | "data", .dict d, f => { f with data := FileSet.deser d { parent := true, observed := true } }
+  | "data", .dict d, f => { f with data := newFileSet d }
   | "features", .dict d, f => { f with features := Features.deser d { f.features with parent := true, observed := true } }
-  | "groups", .dict d, f => { f with groups := (wired f.groups).deser d }
-  | "images", .dict d, f => { f with images := FileSet.deser d { parent := true, observed := true } }
+  | "groups", .dict d, f => { f with groups := updateWired f.groups d }
+  | "images", .dict d, f => { f with images := newFileSet d }
   | "info", .dict d, f => { f with info := Info.deser d (wired f.info) }
-  | "kerning", .dict d, f => { f with kerning := (wired f.kerning).deser d }
-  | "layers", .layers d, f => { f with layers := LayerSet.deser d { parent := true, observed := true, disp := true } }
-  | "lib", .dict d, f => { f with lib := (wired f.lib).deser d }
+  | "kerning", .dict d, f => { f with kerning := updateWired f.kerning d }
+  | "layers", .layers d, f => { f with layers := newLayerSet d }
+  | "lib", .dict d, f => { f with lib := updateWired f.lib d }
   | "tempLib", .dict d, f => { f with tempLib := ({ f.tempLib with parent := true }).deser d }
-  | "guidelines", .dicts l, f =>
-    -- clearGuidelines(), then instantiateGuideline(guidelineDict=d) for each, then `self.guidelines = guides`
-    let r := f.guidelines.reverse.foldl (fun r a => r.remove (dictIdent a)) f.reg
-    let built := buildDicts Guideline.ofDict l r
-    { f with reg := built.2, guidelines := built.1.map (fun c => { c with observed := true }) }
+  | "guidelines", .dicts l, f => f.setGuidelines l
   | _, _, f => f
 
 def Font.deser (data : List (String × FVal)) (f : Font) : Font :=
